@@ -77,4 +77,16 @@ theorem plan_copy_in_one_transaction :
       Raven.Plan.before (Raven.Plan.idx (b!"sql INSERT message_mailbox") tx) (Raven.Plan.idx (b!"sql UPDATE mailboxes") tx)) = true := by
   decide
 
+/-- C08.13  opening a store — a process's first contact with it: after a crash, after a restart, or while another process is
+in the middle of an operation on it — creates what is missing and **deletes and rewrites nothing**; whether the store is
+complete is decided by the marker (`userDBInitialized`) before anything is created. -/
+theorem plan_open_deletes_nothing :
+    [(b!"db.DBManager.GetUserDB"), (b!"db.DBManager.GetRoleMailboxDB"), (b!"db.DBManager.initUserDB")].all (fun f =>
+      let t := Raven.Plan.trace f
+      !t.isEmpty && Raven.Plan.free (b!"sql DELETE") t && Raven.Plan.free (b!"sql UPDATE") t && Raven.Plan.free (b!"sql DROP") t) = true ∧
+    [(b!"db.DBManager.GetUserDB"), (b!"db.DBManager.GetRoleMailboxDB")].all (fun f =>
+      Raven.Plan.before (Raven.Plan.idx (b!"call db.userDBInitialized") (Raven.Plan.trace f))
+        (Raven.Plan.idx (b!"call db.DBManager.initUserDB") (Raven.Plan.trace f))) = true := by
+  decide
+
 end Raven.Props.C08
